@@ -658,6 +658,15 @@ func TestC18(t *testing.T) {
 	r.Assume("retention duration is 0 (unlimited) in every sequence, so MapShards never consults the wall clock and every point must be routed",
 		"TruncateShardGroups (no caller in this tree) is not part of the workload")
 	r.Trust("inmem.KVStore as the persistence medium (bytes written by snapshot() are the bytes load() sees)")
+	if seed, caseNo, _, ok := metaReplay(); ok {
+		// re-run exactly the recorded sequence (and its neighbour, so that the evidence rule of
+		// two distinct cases is met); the oracle prints its diff again if it still fails
+		r.Seed = seed
+		c18Run(r, caseNo)
+		c18Run(r, caseNo+1)
+		r.Sample(map[string]any{"replayed_case": caseNo, "seed": seed})
+		return
+	}
 	n := r.N(8000, 200000)
 	for i := 0; i < n; i++ {
 		c18Run(r, i)
